@@ -156,6 +156,15 @@ pub async fn resolve_host_with_cache(host: &str, port: u16) -> Result<SocketAddr
     Ok(addresses[0])
 }
 
+/// Verification hook: make every cache entry `by` older (the cache uses `std::time::Instant`).
+#[cfg(feature = "verif-hooks")]
+pub async fn verif_age_cache(by: Duration) {
+    let mut cache = DNS_CACHE.inner.write().await;
+    for entry in cache.values_mut() {
+        entry.expires_at = entry.expires_at.checked_sub(by).unwrap_or(entry.expires_at);
+    }
+}
+
 pub async fn set_custom_dns_servers(servers: &[String]) -> Result<()> {
     let mut parsed_servers = Vec::new();
     for raw in servers {
